@@ -593,6 +593,20 @@ func integrations(r *rep.Run) {
 		if sent["SEATA_XID"] != xid || sent["TX_XID"] != xid {
 			r.Violate("integration/dubbo/consumer", "the consumer filter attaches the xid", xid[:min(len(xid), 40)], fmt.Sprint(len(sent)))
 		}
+		// the response passes through the filter with the caller's own context (dubbo's filter chain calls OnResponse after
+		// Invoke): the enclosing transaction's xid is still bound afterwards, and a second call carries it again
+		if xid != "" {
+			f.OnResponse(cctx, &protocol.RPCResult{}, fi, cinv)
+			r.Eval(true)
+			if got := tm.GetXID(cctx); got != xid {
+				r.Violate("integration/dubbo/consumer-context-after-response", "when the inner scope ends the enclosing transaction's xid is intact", xid[:min(len(xid), 40)], fmt.Sprintf("after Invoke + OnResponse on the consumer side the caller's context is bound to %q", got))
+			}
+			cinv2 := invocation.NewRPCInvocation("m2", nil, map[string]interface{}{})
+			f.Invoke(cctx, &fakeInvoker{}, cinv2)
+			if v, _ := cinv2.GetAttachment("TX_XID"); v != xid {
+				r.Violate("integration/dubbo/consumer-second-call", "an xid carried by the integration arrives unchanged", xid[:min(len(xid), 40)], fmt.Sprintf("the second call of the same scope carries %q", v))
+			}
+		}
 		// a relaying service: the invocation it passes on still carries the attachment it received (an older xid) while its
 		// context is bound to another transaction (a RequiresNew scope): the wire and the handed-on context carry the bound xid
 		for _, stale := range []map[string]interface{}{
@@ -633,6 +647,11 @@ func integrations(r *rep.Run) {
 			pi := &fakeInvoker{}
 			f.Invoke(context.Background(), pi, pinv)
 			participantChecks(r, "dubbo", xid, pi.seen, key)
+			// the triple protocol hands attachments over as string slices
+			sinv := invocation.NewRPCInvocation("m", nil, map[string]interface{}{key: []string{xid}})
+			si := &fakeInvoker{}
+			f.Invoke(context.Background(), si, sinv)
+			participantChecks(r, "dubbo", xid, si.seen, key+"[]")
 		}
 	}
 }
